@@ -447,9 +447,16 @@ func init() {
 					n    int
 				}
 				var regs []reg
-				for li := 0; li < nl; li++ {
+				for li := 0; li < nl*2; li++ {
 					for or := 0; or < 1<<uint(m); or++ {
 						pos := 24
+						if li >= nl {
+							// the same regions starting at coordinate 0 (zero-length results sitting on the first position)
+							if m > 3 {
+								continue
+							}
+							pos = 0
+						}
 						x := li
 						var segs [][2]int
 						n := 0
